@@ -300,7 +300,8 @@ package rosmar
 //@ fn (*expiryManager)._setNext
 //@   ensures [C14:setNext.recorded]  *e.nextExp == exp
 //@   ensures [C14:setNext.cleared]   exp == 0 ==> e.timer == nil && count("timer.arm") == 0
-//@   ensures [C14,C20:setNext.armed] exp != 0 ==> e.timer != nil && count("timer.arm") == 1 && count("timer.stop") == 0
+//@   ensures [C14,C20:setNext.armed] exp != 0 && !atomicbool(e.stopped) ==> e.timer != nil && count("timer.arm") == 1 && count("timer.stop") == 0
+//@   ensures [C20:setNext.never-arms-once-stopped] atomicbool(old(e.stopped)) ==> count("timer.arm") == 0 && count("timer.new") == 0
 //@   ensures [C14,C20:setNext.one-timer] old(e.timer) != nil ==> count("timer.new") == 0
 //@   mustfail [C14:setNext.mf] exp == 0
 //@
@@ -308,7 +309,8 @@ package rosmar
 //@   let cur = old(*e.nextExp)
 //@   ensures [C14:schedule.min]    *e.nextExp == (if exp != 0 && (cur == 0 || exp < cur) then exp else cur)
 //@   ensures [C14:schedule.covers] exp != 0 ==> *e.nextExp != 0 && *e.nextExp <= exp
-//@   ensures [C14:schedule.armed]  *e.nextExp != cur ==> count("timer.arm") == 1 && count("timer.stop") == 0
+//@   ensures [C14:schedule.armed]  *e.nextExp != cur && !atomicbool(e.stopped) ==> count("timer.arm") == 1 && count("timer.stop") == 0
+//@   ensures [C20:schedule.never-arms-once-stopped] atomicbool(old(e.stopped)) ==> count("timer.arm") == 0
 //@   ensures [C14:schedule.quiet]  *e.nextExp == cur ==> count("timer.arm") == 0 && count("timer.stop") == 0
 //@
 //@ fn (*expiryManager).scheduleExpirationAtOrBefore
@@ -318,7 +320,9 @@ package rosmar
 //@   ensures [C20:scheduleL.unlocked] any: nolocks()
 //@
 //@ fn (*expiryManager).stop
-//@   ensures [C20:expstop.stops]    e.timer != nil ==> count("timer.stop") == 1
+//@   ensures [C20:expstop.stops]    e.timer != nil && !atomicbool(old(e.stopped)) ==> count("timer.stop") == 1
+//@   ensures [C20:expstop.stopped]  atomicbool(e.stopped)
+//@   ensures [C20:expstop.second-stop-takes-no-lock] atomicbool(old(e.stopped)) ==> count("lock") == 0
 //@   ensures [C20:expstop.unlocked] any: nolocks()
 //@   ensures [C14:expstop.noarm]    count("timer.arm") == 0
 //@
@@ -504,9 +508,12 @@ package rosmar
 //@   loop 2 body [C16:closeDB.removes-entry] iter("mapdelete") == 1
 //@   loop 3 invariant [C16:closeDB.feed-loop] true
 //@   loop 3 body [C16:closeDB.closes-each-feed] iter("call:queue.close") == 1
-//@   ensures [C14,C20:closeDB.stops-timer]   !isnull(bucket.expManager.timer) ==> count("timer.stop") == 1
+//@   ensures [C14,C20:closeDB.stops-timer]   !isnull(bucket.expManager.timer) && !atomicbool(old(bucket.expManager.stopped)) ==> count("timer.stop") == 1
+//@   ensures [C14,C20:closeDB.manager-stopped] atomicbool(bucket.expManager.stopped)
+//@   requires [C20:closeDB.timer-stopped-before-bucket-lock] !heldlike("bucket.mutex") || atomicbool(bucket.expManager.stopped)
+//@   ensures [C20:closeDB.no-expiry-lock-once-stopped] any: atomicbool(old(bucket.expManager.stopped)) ==> lockcount("expManager.mutex") == 0 && lockcount("e.mutex") == 0
 //@   ensures [C16,C20:closeDB.closes-db]     count("dbclose") == 1
-//@   ensures [C20:closeDB.order]             tracepos("timer.stop") < tracepos("dbclose") || isnull(bucket.expManager.timer)
+//@   ensures [C20:closeDB.order]             tracepos("timer.stop") < tracepos("dbclose") || isnull(bucket.expManager.timer) || atomicbool(old(bucket.expManager.stopped))
 //@   ensures [C13,C20:closeDB.handle-stays-in-place] bucket.sqliteDB == old(bucket.sqliteDB)
 //@
 //@ fn (*Collection).close
